@@ -2242,6 +2242,74 @@ func RuleQ2(c *Ctx) {
 	if n == 0 {
 		sc.Undecided("sites", "-", "no Unquote call found")
 	}
+	// quotes come off once: a quote test or a second Unquote is never asked of a value an
+	// unquoter already returned - the value `"a"` written as "\"a\"" has quotes of its own
+	// after the first pass, and they are content
+	libBytes := ""
+	unquoters := map[*types.Func]bool{}
+	c.eachCall(func(cs callSite) {
+		f := Callee(cs.Pk.TypesInfo, cs.Call)
+		if f != nil && f.Name() == "Unquote" && f.Pkg() != nil && strings.HasSuffix(f.Pkg().Path(), "jsight-schema-go-library/bytes") {
+			libBytes = f.Pkg().Path()
+			unquoters[f] = true
+			if g := declObj(cs); g != nil {
+				sig := g.Type().(*types.Signature)
+				if sig.Params().Len() == 1 && sig.Results().Len() == 1 && types.Identical(sig.Params().At(0).Type(), sig.Results().At(0).Type()) {
+					unquoters[g] = true
+				}
+			}
+		}
+	})
+	isUnquoterCall := func(info *types.Info, e ast.Expr) bool {
+		call, ok := ast.Unparen(e).(*ast.CallExpr)
+		if !ok {
+			return false
+		}
+		g := Callee(info, call)
+		return g != nil && unquoters[g]
+	}
+	perFn2 := map[*ast.FuncDecl]int{}
+	c.eachCall(func(cs callSite) {
+		info := cs.Pk.TypesInfo
+		f := Callee(info, cs.Call)
+		if f == nil || f.Pkg() == nil || f.Pkg().Path() != libBytes || (f.Name() != "InQuotes" && f.Name() != "Unquote") {
+			return
+		}
+		recv := Recv(cs.Call)
+		if recv == nil {
+			return
+		}
+		second := isUnquoterCall(info, recv)
+		if id, ok := ast.Unparen(recv).(*ast.Ident); ok && !second {
+			obj := info.ObjectOf(id)
+			cf := c.CFG(cs.Pk, cs.Body)
+			assignsTo := func(nd ast.Node, unq bool) bool {
+				as, ok := nd.(*ast.AssignStmt)
+				if !ok {
+					return false
+				}
+				for i, l := range as.Lhs {
+					if lid, ok := l.(*ast.Ident); ok && info.ObjectOf(lid) == obj {
+						if !unq {
+							return true
+						}
+						if len(as.Lhs) == len(as.Rhs) && isUnquoterCall(info, as.Rhs[i]) {
+							return true
+						}
+					}
+				}
+				return false
+			}
+			second = cf.MustAt(cs.Call, nil,
+				func(nd ast.Node) bool { return assignsTo(nd, true) },
+				func(nd ast.Node) bool { return assignsTo(nd, false) && !assignsTo(nd, true) })
+		}
+		if !second {
+			return
+		}
+		perFn2[cs.Decl]++
+		sc.Violation(fmt.Sprintf("%s:twice#%d", c.P.DeclName(cs.Decl), perFn2[cs.Decl]), c.P.Pos(cs.Call.Pos()), f.Name()+"() is asked of a value that has already been unquoted: quotation marks that are part of the value (written \\\"a\\\") are taken for delimiters a second time, so the quoted spelling no longer gives the value it spells")
+	})
 }
 
 // ---------------------------------------------------------------- FC1
